@@ -263,6 +263,14 @@ def check(ctx):
         ctx.instance('C20.R3', '%s tests %s before formatting' % (Model.qual(f), sp), 'ok' if ok else 'VIOLATION', node=f, file=F)
         if not ok:
             ctx.violation('C20.R3', F, f, Model.qual(f), 'special value %s is not handled before the float is formatted' % sp, stmt='special ' + sp)
+    from ..siblings import lossy_float_ops
+    from .C02 import float_param_aliases
+    lossy = lossy_float_ops(f, float_param_aliases(f))
+    ctx.instance('C20.R3', '%s: the float is not rounded before it is formatted' % Model.qual(f), 'ok' if not lossy else 'VIOLATION', node=f, file=F)
+    for n_, what_ in lossy[:1]:
+        ctx.violation('C20.R3', F, n_, Model.qual(f),
+                      'the float goes through %s before the text is produced: fewer than 17 significant digits do not identify a double, so two different values produce the same '
+                      'GSER text (0.1 + 0.2 and 0.3) and the text does not determine the value' % what_, stmt='float rounded before formatting')
     for n in walk_no_nested(f):
         if isinstance(n, ast.Call) and isinstance(n.func, ast.Attribute) and n.func.attr == 'format' and isinstance(n.func.value, ast.Constant) \
                 and isinstance(n.func.value.value, str):
@@ -430,3 +438,7 @@ MUTANTS.append(dict(name='long BIT STRING emitted as hstring of all octets, bit 
         if data[1] > 64 and data[1] % 4 == 0:
             return "'{}'H".format(format_bytes(data[0])).upper()
 """, expect='C20.R7'))
+
+MUTANTS.append(dict(name='GSER REAL rounded to 15 significant digits', file=F,
+                    old="""            # str() may already use exponent notation""", new="""            data = float('{:.15g}'.format(data))
+            # str() may already use exponent notation""", expect='C20.R3'))
